@@ -94,17 +94,27 @@ var orbitOracleCache sync.Map
 func genOrbitFamilyCase(t *rapid.T) orbitFamilyCase {
 	c := orbitFamilyCase{Seed: rapid.Uint64().Draw(t, "seed"), R: sz(40, 150), Compl: rapid.IntRange(0, 4).Draw(t, "compl") == 0}
 	c.Family = rapid.SampledFrom([]string{"genpetersen", "genpetersen", "genpetersen", "sun", "bipartite", "wheel", "prism-pendants", "two-cycles", "two-genpetersen", "rook", "circulant-cone"}).Draw(t, "family")
+	big := rapid.IntRange(0, 4).Draw(t, "big") == 0 // more than 64 vertices
 	switch c.Family {
 	case "genpetersen":
 		c.A = rapid.IntRange(5, sz(12, 16)).Draw(t, "n")
+		if big {
+			c.A = rapid.IntRange(33, sz(40, 48)).Draw(t, "bign")
+		}
 		c.B = rapid.IntRange(1, (c.A-1)/2).Draw(t, "k")
 	case "two-genpetersen":
 		c.A = rapid.IntRange(5, 8).Draw(t, "n")
 		c.B = rapid.IntRange(1, (c.A-1)/2).Draw(t, "k")
 	case "sun", "wheel":
 		c.A = rapid.IntRange(4, sz(12, 16)).Draw(t, "n")
+		if big {
+			c.A = rapid.IntRange(33, 70).Draw(t, "bign")
+		}
 	case "prism-pendants":
 		c.A = rapid.IntRange(3, sz(8, 11)).Draw(t, "n")
+		if big {
+			c.A = rapid.IntRange(22, 30).Draw(t, "bign")
+		}
 	case "bipartite", "rook":
 		c.A = rapid.IntRange(2, 5).Draw(t, "a")
 		c.B = rapid.IntRange(c.A+1, 7).Draw(t, "b")
@@ -114,8 +124,15 @@ func genOrbitFamilyCase(t *rapid.T) orbitFamilyCase {
 	case "two-cycles":
 		c.A = rapid.IntRange(3, 11).Draw(t, "a")
 		c.B = rapid.IntRange(c.A+1, 13).Draw(t, "b")
+		if big {
+			c.A = rapid.IntRange(20, 40).Draw(t, "biga")
+			c.B = rapid.IntRange(c.A+1, 50).Draw(t, "bigb")
+		}
 	case "circulant-cone":
 		c.A = 2 * rapid.IntRange(4, sz(9, 12)).Draw(t, "half")
+		if big {
+			c.A = 2 * rapid.IntRange(32, 40).Draw(t, "bighalf")
+		}
 		c.B = rapid.IntRange(2, c.A/2-1).Draw(t, "d")
 	}
 	return c
@@ -142,7 +159,12 @@ func checkOrbitFamilyCase(c orbitFamilyCase, rec *Rec) error {
 	rec.Labelf("orbits-%d", len(cnt))
 	rng := newPrng(c.Seed, 77)
 	n := g.N
-	for r := 0; r < c.R; r++ {
+	R := c.R
+	if n > 64 {
+		R = max(8, c.R/4)
+		rec.Label("more-than-64-vertices")
+	}
+	for r := 0; r < R; r++ {
 		pi := rng.perm(n)
 		h := g.Induced(pi) // vertex i of h is vertex pi[i] of g
 		want := make([]int, n)
@@ -192,6 +214,6 @@ func checkOrbitFamilyCase(c orbitFamilyCase, rec *Rec) error {
 
 func init() {
 	RegisterRapid("C02_few_large_orbits_many_relabellings",
-		"rapid: a named graph with few large orbits (generalised Petersen graphs GP(n,k) for n in 5..12 (thorough 16) and every k, vertex-transitive or not; suns; K(a,b) with a != b; wheels; prisms with pendants; two cycles of different length; two copies of GP(n,k) plus a cycle; rook graphs; coned circulants; optionally complemented) under 40 (thorough 150) uniform relabellings each, alternating dense and sparse input. The oracle's orbit partition and group order are computed once per base graph and transported along each relabelling: the returned orbits must equal the transported partition, every generator must be an automorphism, and (every eighth relabelling) the generators must generate a group of the right order. Non-trivial: some orbit has >= 5 vertices.",
-		Budget{Checks: 500, Shards: 2}, Budget{Checks: 1500, Shards: 16}, genOrbitFamilyCase, checkOrbitFamilyCase)
+		"rapid: a named graph with few large orbits (generalised Petersen graphs GP(n,k) for n in 5..12 (thorough 16) and every k, vertex-transitive or not; a fifth of the cases on 65..140 vertices (GP(33..48,k), suns, prisms with pendants, two long cycles, coned circulants; a quarter of the relabellings there); suns; K(a,b) with a != b; wheels; prisms with pendants; two cycles of different length; two copies of GP(n,k) plus a cycle; rook graphs; coned circulants; optionally complemented) under 40 (thorough 150) uniform relabellings each, alternating dense and sparse input. The oracle's orbit partition and group order are computed once per base graph and transported along each relabelling: the returned orbits must equal the transported partition, every generator must be an automorphism, and (every eighth relabelling) the generators must generate a group of the right order. Non-trivial: some orbit has >= 5 vertices.",
+		Budget{Checks: 300, Shards: 2}, Budget{Checks: 1000, Shards: 16}, genOrbitFamilyCase, checkOrbitFamilyCase)
 }
